@@ -58,7 +58,7 @@ pub fn run(tier: &str) -> Result<Report, String> {
     let mut rep = Report::new("C18", tier, "model_checking");
     std_assumptions(&mut rep);
     let nets = core_nets(3)?;
-    let (m_frag, m_free, pool) = if tier == "quick" { (5, 4, 5) } else { (5, 5, 5) };
+    let (m_frag, m_free, pool) = (5, 5, 5);
     let mut steady_free = vec![];
     for b in &nets {
         crate::sem::note_network(&mut rep, b);
